@@ -90,28 +90,28 @@ Definition fn_key (s : pstate) (f : fn) : key := (fmod s f, fn_name f).
 Definition site_val (s : pstate) (x : site) : fn :=
   match getattr s (site_key x) with Some f => f | None => Orig x end.
 
-(* entry of the context manager up to `yield`.  [ord] is the iteration order of the set
-   TO_BE_WRAPPED (unspecified in Python: every order is a possible behaviour) *)
-Definition funcs_of (s : pstate) (ord : list site) : list fn := map (site_val s) ord.
-Fixpoint patch_all (s : pstate) (fs : list fn) : pstate :=
-  match fs with
+(* ---- retain_ltype (after fix 084bc81):
+     TO_BE_WRAPPED = [(module, name, getattr(module, name)) for the three (module, name) pairs]
+     try:     for module, name, func in TO_BE_WRAPPED: setattr(module, name, wrap_function(func)); yield
+     finally: for module, name, func in TO_BE_WRAPPED: setattr(module, name, func)                      *)
+Definition all_sites : list site := [S_make_dual; S_wrap_grad; S_add_batch].
+Fixpoint patch_sites (s : pstate) (l : list (site * fn)) : pstate :=
+  match l with
   | [] => s
-  | f :: r => patch_all (mkP ((fn_key s f, Wrap (next s) f) :: tbl s) (fmods s) (S (next s))) r
+  | (x, f) :: r => patch_sites (mkP ((site_key x, Wrap (next s) f) :: tbl s) (fmods s) (S (next s))) r
   end.
-Definition enter (s : pstate) (ord : list site) : pstate * list fn :=
-  let fs := funcs_of s ord in                                   (* the set is built first *)
-  let s1 := set_module s (site_val s S_add_batch) M_vmap in     (* ..._add_batch_dim.__module__ = 'torch._functorch.vmap' *)
-  (patch_all s1 fs, fs).
-(* the `finally:` block *)
-Fixpoint leave (s : pstate) (fs : list fn) : pstate :=
-  match fs with [] => s | f :: r => leave (setattr s (fn_key s f) f) r end.
+Fixpoint restore_sites (s : pstate) (l : list (site * fn)) : pstate :=
+  match l with [] => s | (x, f) :: r => restore_sites (setattr s (site_key x) f) r end.
+Definition enter (s : pstate) : pstate * list (site * fn) :=
+  let saved := map (fun x => (x, site_val s x)) all_sites in (patch_sites s saved, saved).
+Definition leave (s : pstate) (saved : list (site * fn)) : pstate := restore_sites s saved.
 
 (* the wrapped body *)
 Inductive body :=
-| BRet                                              (* returns normally *)
-| BRaise                                            (* raises here *)
-| BCall (x : site) (k : body)                       (* calls through a patched module attribute, goes on *)
-| BNest (ord : list site) (inner : body) (k : body). (* with retain_ltype(): inner ; then k *)
+| BRet                                (* returns normally *)
+| BRaise                              (* raises here *)
+| BCall (x : site) (k : body)         (* calls through a patched module attribute, goes on *)
+| BNest (inner : body) (k : body).    (* with retain_ltype(): inner ; then k *)
 
 (* number of wrapper layers around the function found at a call site *)
 Fixpoint layers (f : fn) : nat := match f with Orig _ => 0 | Wrap _ g => S (layers g) end.
@@ -122,14 +122,44 @@ Fixpoint run (b : body) (s : pstate) : pstate * bool * list (site * nat) :=
   | BRet => (s, false, [])
   | BRaise => (s, true, [])
   | BCall x k => let '(s', r, t) := run k s in (s', r, (x, layers (site_val s x)) :: t)
-  | BNest ord inner k =>
-      let '(s1, fs) := enter s ord in
+  | BNest inner k =>
+      let '(s1, saved) := enter s in
       let '(s2, r, t) := run inner s1 in
-      let s3 := leave s2 fs in                      (* finally: runs on return and on exception *)
+      let s3 := leave s2 saved in                   (* finally: runs on return and on exception *)
       if r then (s3, true, t)                       (* the exception propagates *)
       else let '(s4, r', t') := run k s3 in (s4, r', t ++ t')
   end.
-Definition with_retain_ltype (ord : list site) (b : body) (s : pstate) := run (BNest ord b BRet) s.
+Definition with_retain_ltype (b : body) (s : pstate) := run (BNest b BRet) s.
+
+(* ---- retain_ltype before the fix (history): TO_BE_WRAPPED was the SET of the three current function
+   objects, _add_batch_dim.__module__ was assigned 'torch._functorch.vmap' before the try block, and the
+   attribute to patch / restore was looked up as (func.__module__, func.__name__).  [ord] is the
+   iteration order of the set. *)
+Definition funcs_of (s : pstate) (ord : list site) : list fn := map (site_val s) ord.
+Fixpoint patch_all_old (s : pstate) (fs : list fn) : pstate :=
+  match fs with
+  | [] => s
+  | f :: r => patch_all_old (mkP ((fn_key s f, Wrap (next s) f) :: tbl s) (fmods s) (S (next s))) r
+  end.
+Definition enter_old (s : pstate) (ord : list site) : pstate * list fn :=
+  let fs := funcs_of s ord in
+  let s1 := set_module s (site_val s S_add_batch) M_vmap in
+  (patch_all_old s1 fs, fs).
+Fixpoint leave_old (s : pstate) (fs : list fn) : pstate :=
+  match fs with [] => s | f :: r => leave_old (setattr s (fn_key s f) f) r end.
+Fixpoint run_old (ord : list site) (b : body) (s : pstate) : pstate * bool * list (site * nat) :=
+  match b with
+  | BRet => (s, false, [])
+  | BRaise => (s, true, [])
+  | BCall x k => let '(s', r, t) := run_old ord k s in (s', r, (x, layers (site_val s x)) :: t)
+  | BNest inner k =>
+      let '(s1, fs) := enter_old s ord in
+      let '(s2, r, t) := run_old ord inner s1 in
+      let s3 := leave_old s2 fs in
+      if r then (s3, true, t)
+      else let '(s4, r', t') := run_old ord k s3 in (s4, r', t ++ t')
+  end.
+Definition with_retain_ltype_old (ord : list site) (b : body) (s : pstate) := run_old ord (BNest b BRet) s.
 
 (* states: as imported (pristine), and after any earlier use of retain_ltype (normal) *)
 Definition base_tbl : list (key * fn) :=
@@ -245,32 +275,42 @@ Definition p_cumops_ (n : nat) : prog := p_cumops_loop n 0.
 (* cumops(input, dim, ops) = cumops_(input.clone(), dim, ops) *)
 Definition p_cumops (n : nat) : prog := Fresh 1 (K 0) [0] (p_cumops_loop n 1).
 
-(* quat2unit(input) for a Lie group input:
-     data = input.tensor(); data[..., a:b] = normalize(data[..., a:b]); output = LieTensor(data);
+(* quat2unit(input) for a Lie group input (after fix c362486):
+     data = input.tensor().clone(); data[..., a:b] = normalize(data[..., a:b]); output = LieTensor(data);
      if (output.rotation().norm() < eps).any(): raise; return output
-   K 0 normalize(data[..., a:b]), K 1 data with the slice replaced, Cnd 0 zero quaternion detected *)
+   K 0 normalize(data[..., a:b]), K 1 data with the slice replaced, K 2 clone, Cnd 0 zero quaternion detected *)
 Definition p_quat2unit : prog :=
+  Alias 1 0 (Fresh 4 (K 2) [1] (Fresh 2 (K 0) [4] (Inplace 4 (K 1) [4; 2] (Alias 3 4 (If (Cnd 0) [3] (Ret []) (Ret [3])))))).
+(* before the fix: data = input.tensor() shared the storage of the argument *)
+Definition p_quat2unit_old : prog :=
   Alias 1 0 (Fresh 2 (K 0) [1] (Inplace 1 (K 1) [1; 2] (Alias 3 1 (If (Cnd 0) [3] (Ret []) (Ret [3]))))).
 (* quat2unit(input) for anything else: warn and return input *)
 Definition p_quat2unit_other : prog := Ret [0].
 
-(* matching_time_indices(stamps_1, stamps_2, max_diff, offset_2):  stamps_2 += offset_2; ...
+(* matching_time_indices(stamps_1, stamps_2, max_diff, offset_2) (after fix 9407769):
+     stamps_2 = stamps_2 + offset_2; ...
    K 0 stamps_2 + offset_2, K 1 |stamps_1[:,None] - stamps_2[None]|, K 2 min *)
 Definition p_matching : prog :=
+  Fresh 4 (K 0) [1] (Fresh 2 (K 1) [0; 4] (Fresh 3 (K 2) [2] (Ret []))).
+(* before the fix: stamps_2 += offset_2 *)
+Definition p_matching_old : prog :=
   Inplace 1 (K 0) [1] (Fresh 2 (K 1) [0; 1] (Fresh 3 (K 2) [2] (Ret []))).
 (* ape / rpe (rstamp, rpose, estamp, epose, ..., offset): StampedSE3 keeps
      poses.to(dtype)  and  timestamps.type(torch.float64).to(device)
    which are the caller's tensors themselves when nothing has to be converted; associate_traj
    passes the timestamps of the longer trajectory (the reference one on a tie) as stamps_2.
    K 3 dtype conversion, K 4 the error statistics *)
-Definition p_ape (r_is_f64 e_is_f64 e_longer : bool) : prog :=
+Definition p_ape_gen (inplace : bool) (r_is_f64 e_is_f64 e_longer : bool) : prog :=
   (if r_is_f64 then Alias 4 0 else Fresh 4 (K 3) [0])
   ((if e_is_f64 then Alias 5 2 else Fresh 5 (K 3) [2])
   (Alias 6 1 (Alias 7 3
   (let long := if e_longer then 5 else 4 in
    let short := if e_longer then 4 else 5 in
-   Inplace long (K 0) [long] (Fresh 8 (K 1) [short; long] (Fresh 9 (K 2) [8]
+   (if inplace then (fun k => Inplace long (K 0) [long] (Alias 11 long k)) else Fresh 11 (K 0) [long])
+   (Fresh 8 (K 1) [short; 11] (Fresh 9 (K 2) [8]
    (Fresh 10 (K 4) [6; 7; 9] (Ret [10])))))))).
+Definition p_ape := p_ape_gen false.
+Definition p_ape_old := p_ape_gen true.
 
 (* CG.forward(A, b, x=None, M=None): arguments 0 A, 1 b, 2 x, 3 M.
    K 0 zeros_like(b), K 1 norm(b), K 2 b - A@x, K 3 clone, K 4 empty_like(b), K 5 M@r, K 6 r^T z,
@@ -292,16 +332,20 @@ Fixpoint p_cg_loop (has_M : bool) (n : nat) (first : bool) : prog :=
       (Alias 11 8                                                      (* rho_prev = rho_cur *)
       (p_cg_loop has_M n' false)))))))))
   end.
-Definition p_cg (has_x has_M : bool) (maxiter : nat) : prog :=
+(* [clone_x] = after fix 146d9a5: x = torch.zeros_like(b) if x is None else x.clone() *)
+Definition p_cg_gen (clone_x : bool) (has_x has_M : bool) (maxiter : nat) : prog :=
   let rest :=
     Fresh 6 (K 4) [12]                                                 (* q = empty_like(b) *)
     ((if has_M then Fresh 7 (K 4) [12] else Fresh 7 (K 3) [5])         (* z = empty_like(b)  /  r.clone() *)
     (p_cg_loop has_M maxiter true)) in
   Alias 12 1                                                           (* b (or b.unsqueeze(-1)) *)
-  ((if has_x then Alias 4 2 else Fresh 4 (K 0) [12])                   (* x = zeros_like(b) if x is None *)
+  ((if has_x then (if clone_x then Fresh 4 (K 3) [2] else Alias 4 2)   (* x.clone()  /  x itself (old) *)
+    else Fresh 4 (K 0) [12])                                           (* zeros_like(b) *)
   (Fresh 13 (K 1) [12]                                                 (* bnrm2 *)
   (If (Cnd 0) [13] (Ret [12])                                          (* b == 0: return b *)
   (If (Cnd 1) [4] (Fresh 5 (K 2) [12; 0; 4] rest) (Fresh 5 (K 3) [12] rest))))).
+Definition p_cg := p_cg_gen true.
+Definition p_cg_old := p_cg_gen false.
 End Effects.
 Arguments Ret {D}. Arguments Alias {D}. Arguments Fresh {D}. Arguments Inplace {D}. Arguments If {D}.
 
@@ -313,16 +357,16 @@ Definition obs_eqb (a b : option (fn * modname)) : bool :=
   | _, _ => false end.
 Fixpoint list_eqb {X} (e : X -> X -> bool) (a b : list X) : bool :=
   match a, b with [] , [] => true | x :: a', y :: b' => e x y && list_eqb e a' b' | _, _ => false end.
-(* (index, start pristine?, iteration order, body, observed: final attributes, raised, call trace) *)
-Definition patch_case := (nat * bool * list site * body * (list (option (fn * modname)) * bool * list (site * nat)))%type.
+(* (index, start pristine?, body, observed: final attributes, raised, call trace) *)
+Definition patch_case := (nat * bool * body * (list (option (fn * modname)) * bool * list (site * nat)))%type.
 Definition patch_ok (c : patch_case) : bool :=
-  match c with (_, pr, ord, b, (obs, raised, trace)) =>
-    let '(s, r, t) := with_retain_ltype ord b (if pr then pristine else normal) in
+  match c with (_, pr, b, (obs, raised, trace)) =>
+    let '(s, r, t) := with_retain_ltype b (if pr then pristine else normal) in
     list_eqb obs_eqb (observe s) obs && Bool.eqb r raised &&
     list_eqb (fun p q => site_eqb (fst p) (fst q) && (snd p =? snd q)) t trace
   end.
 Definition patch_bad (cs : list patch_case) : list nat :=
-  map (fun c => match c with (i, _, _, _, _) => i end) (filter (fun c => negb (patch_ok c)) cs).
+  map (fun c => match c with (i, _, _, _) => i end) (filter (fun c => negb (patch_ok c)) cs).
 
 (* which arguments may be written: program code, three flags, a count *)
 Definition eff_prog (code : nat) (b1 b2 b3 : bool) (n : nat) : nat * prog unit :=
